@@ -5,6 +5,8 @@ import (
 	"go/ast"
 	"strconv"
 	"strings"
+
+	"verif/vp/core"
 )
 
 // C01: the emitted text is a complete Go file that type-checks in its destination package.
@@ -52,6 +54,24 @@ func expectDiag(x *Ctx) string {
 func C19(x *Ctx) []Violation {
 	r := x.Run()
 	var vs []Violation
+	if r.TimedOut {
+		// "never hangs": an expired watchdog counts only when it reproduces twice with a doubled limit
+		// (a loaded machine must not turn into a violation)
+		saved := x.Env.Watchdog
+		x.Env.Watchdog = 2 * saved
+		reproduced := true
+		for i := 0; i < 2 && reproduced; i++ {
+			if _, r2 := x.RunWith(func(cfg *core.Config) {}); !r2.TimedOut {
+				reproduced = false
+				r = r2
+				x.Res = r2
+			}
+		}
+		x.Env.Watchdog = saved
+		if !reproduced {
+			x.Note("slow_run_not_reproduced")
+		}
+	}
 	if crashed, what := Crashed(r); crashed {
 		return []Violation{{"C19", "no-crash", fmt.Sprintf("moq %v: %s", r.Argv, what)}}
 	}
